@@ -148,6 +148,22 @@ def gen_scenario(rng):
             c2["type"] = 0
             parked_sub = parked_sub or ("subscribe" in c2["f"] and c2["s"].startswith("A"))
             lines.append("frame " + fmt_cmd(c2))
+    if rng.random() < 0.3:
+        # subscription flow: subscribe with client-side refresh, then sub_refresh with / without token,
+        # duplicate subscribe, unsubscribe, sub_refresh after unsubscribe
+        ch = rng.choice(chans)
+        flow = [{"f": "subscribe", "s": "S:" + rng.choice(["csr", "csr", "ok"]), "tok": "t"},
+                {"f": "sub_refresh", "s": rng.choice(["S:ok", "S:future", "A:ok", "S:past", "S:err:109"]),
+                 "tok": rng.choice(["t", "t", "-"])},
+                {"f": rng.choice(["subscribe", "sub_refresh", "presence"]), "s": "S:ok", "tok": rng.choice(["t", "-"])},
+                {"f": "unsubscribe", "s": "S:ok", "tok": "t"},
+                {"f": "sub_refresh", "s": "S:ok", "tok": "t"}]
+        for st in flow[: rng.randint(2, 5)]:
+            c3 = {"id": rng.choice(IDS), "f": st["f"], "ch": ch, "tok": st["tok"], "type": 0, "removed": 0, "delta": "-",
+                  "s": st["s"]}
+            if st["s"].startswith("A"):
+                npend += 1
+            lines.append("frame " + fmt_cmd(c3))
     while npend > 0 and rng.random() < 0.8:
         lines.append("fire 0")
         npend -= 1
